@@ -107,7 +107,7 @@ def run_harnesses(prop, tier, harnesses, timeout_s, jobs=None):
         except Exception:
             return {}, False, log, wall
         errs = {e["harness_id"]: e for e in d.get("error_details", [])}
-        stats = {c["harness_id"]: c.get("cbmc_stats", {}) for c in d.get("cbmc", [])}
+        stats = {c["harness_id"]: (c.get("cbmc_stats") or {}) for c in d.get("cbmc", [])}
         for r in d.get("verification_results", {}).get("results", []):
             hid = r["harness_id"]
             results[hid] = {
